@@ -5,7 +5,10 @@
 Require Import MV.Base.Prelude MV.Base.CInt MV.Base.Index MV.Base.BorderSpec MV.Base.Renumber.
 Require Import MV.Gen.Scalar_gen MV.Model.Filter MV.Model.Label.
 
-(* int find(data, i) { if (data[i] == i) return i; int j = find(data, data[i]); data[i] = j; return j; } *)
+(* find(data, i): walk to the root, then point every node of the walked path at it.  Written recursively here
+   ({ if (data[i] == i) return i; int j = find(data, data[i]); data[i] = j; return j; }), as the C++ was until the repair 635be0d
+   made it two loops (the recursion overflowed the C stack on chains of a million pixels): same root returned, same parent
+   array afterwards. *)
 Fixpoint uf_find (fuel : nat) (p : list Z) (i : Z) : list Z * Z :=
   match fuel with
   | O => (p, i)
